@@ -12,11 +12,13 @@ compared with the semantics computed by the compiled Lean driver (`sem.rows`): N
 On every prefix the real rows must be SOUND w.r.t. the semantics (theorem `sound`): every row a task
 of the semantic set, every completed row with the prescribed state and next_tasks.
 
-The model classifies the recorded history (`sem.check`): a history that contains a stale re-start of
-a failed task, or leaves WP-A's class `PausedClean`, is outside the class of the theorem; a mismatch
-there carries the signature of the corresponding known finding.  A mismatch INSIDE the class
-contradicts theorem + tie and is reported as a disagreement.
-corpus/C02/*.json: recorded counter-witnesses (model event lists) replayed on the real engine.
+The theorems hold for EVERY plain history, so every mismatch contradicts theorem + tie.  The model
+classifies the recorded history (`sem.check`): a mismatch on a history in which a stale start request
+(`start_task(first_run=False)` for a task that has meanwhile failed) was delivered is reported as a
+violation with the signature of that (fixed) defect - the regression of repo_patches/20 -, any other
+mismatch as a disagreement.  The number of histories that exercise the fixed path is counted.
+corpus/C02/*.json: former counter-witnesses (model event lists) replayed on the real engine; they must
+agree with the model after every event and with the semantics at the end.
 """
 import glob
 import json
@@ -161,8 +163,6 @@ def gen_ops(rng):
 def classify(chk):
     if chk.get('stale') is not None:
         return dict(SIG_STALE)
-    if chk.get('unclean') is not None:
-        return dict(SIG_UNCLEAN)
     return None
 
 
@@ -178,7 +178,8 @@ def compare(ctx, drv, case, prog, failing, r):
         ctx.count('sem', 'skipped:foreign-result')
         return True
     sig = classify(chk)
-    ctx.count('sem', 'class:' + (sig['cause'] if sig else 'proved'))
+    if sig is not None:
+        ctx.count('sem', 'exercised:stale-start-request-delivered')
     sem = chk['sem']
     # (a) soundness of every prefix of the REAL run
     bad = unsound_prefix(r['real'], sem)
@@ -197,13 +198,13 @@ def compare(ctx, drv, case, prog, failing, r):
     else:
         ctx.count('sem', 'not-quiescent:%s' % final['wf'])
     if ok:
-        # the model followed the same events: inside the class it must be sound / complete too
-        if sig is None and (chk.get('unsound') is not None or not chk.get('complete')):
+        # the model followed the same events: it must be sound / complete too
+        if chk.get('unsound') is not None or not chk.get('complete'):
             ctx.disagree('sem', case, {'model unsound at': chk.get('unsound'), 'complete': chk.get('complete')},
                          'theorems sound / complete_at_quiescence')
             return False
         return True
-    ctx.count('sem', 'mismatch:' + (sig['cause'] if sig else 'inside-proved-class'))
+    ctx.count('sem', 'mismatch:' + (sig['cause'] if sig else 'other'))
     if sig is not None:
         ctx.violation(what, dict(case, stream='sem', events=r['events']), sig)
     else:
@@ -227,10 +228,7 @@ def run_corpus(ctx):
             ctx.disagree('sem', dict(case, at=out['diverged_at']), 'model event list', out['why'])
             continue
         r = {'events': evs, 'real': [out['final']], 'quiescent': True, 'exhausted': False}
-        agree = compare(ctx, drv, case, c['prog'], c['failing'], r)
-        if agree and c.get('expect') == 'order-dependent':
-            # the defect is gone: the model (which still shows it) no longer describes the code
-            ctx.disagree('sem', case, 'outcome differs from the semantics (model)', out['final'])
+        compare(ctx, drv, case, c['prog'], c['failing'], r)
 
 
 def run_chunk(ctx, n_programs):
